@@ -242,6 +242,9 @@ def symmod(a, b):
 
 
 def symcall(f, *a, **k):
+    tc = _TYPE_CALLS.get(f) if isinstance(f, type) else None
+    if tc is not None:
+        return tc(*a, **k)
     selfobj = getattr(f, "__self__", None)
     if selfobj is not None and not isinstance(selfobj, types.ModuleType):
         name = getattr(f, "__name__", None)
@@ -250,6 +253,10 @@ def symcall(f, *a, **k):
             if name == "join":
                 items = list(a[0])
                 if any(isinstance(x, SymStr) for x in items):
+                    if selfobj == "\n":
+                        from .stubs import SymText
+
+                        return SymText(items)
                     return SymStr.lift(selfobj).join(items)
                 return f(items)
             if name == "format":
@@ -462,6 +469,9 @@ def b_sorted(xs, **k):
     return builtins.sorted(xs, **k)
 
 
+_TYPE_CALLS = {str: b_str, int: b_int, float: b_float, bool: b_bool}
+
+
 # ------------------------------------------------------------------------ shims for modules
 class NoLog(object):
     def __getattr__(self, k):
@@ -484,6 +494,10 @@ class LoggingShim(object):
 class ReShim(object):
     IGNORECASE = _re.IGNORECASE
     I = _re.I
+    ASCII = _re.ASCII
+    A = _re.A
+    DOTALL = _re.DOTALL
+    MULTILINE = _re.MULTILINE
     Pattern = _re.Pattern
     compile = staticmethod(_re.compile)
     escape = staticmethod(_re.escape)
@@ -594,10 +608,6 @@ def load_module(modname, path, shims, pkg_modules):
     bi.update(
         len=b_len,
         isinstance=b_isinstance,
-        str=b_str,
-        int=b_int,
-        float=b_float,
-        bool=b_bool,
         max=b_max,
         min=b_min,
         any=b_any,
